@@ -25,7 +25,7 @@ DEATH = ('WorkerDied', 'AssertionError')
 # ==========================================================================================
 
 def ev_alphabet():
-    return ([['connect', p, r, 'direct'] for p in (0, 1) for r in (None, 5)] +
+    return ([['connect', p, r, 'direct'] for p in (0, 1) for r in (None, 0)] +
             [['disconnect', i] for i in (0, 1, 2)] + [['emit', 1], ['emit_until', 2]])
 
 
@@ -35,7 +35,7 @@ def gen_events_random(rng, n):
     for _ in range(n):
         r = rng.random()
         if r < 0.4 or nconn == 0:
-            ops.append(['connect', rng.choice([0, 0, 1, 2, -1, 5]), rng.choice([None, None, None, 3, 4]),
+            ops.append(['connect', rng.choice([0, 0, 1, 2, -1, 5]), rng.choice([None, None, None, 0, 3, 4]),
                         rng.choice(['direct', 'direct', 'kwargs', 'decorator'])])
             nconn += 1
         elif r < 0.6:
@@ -100,6 +100,11 @@ def events_oracle(ops, res):
     return None
 
 
+def zlist(l):
+    """list of integers as a Coq term whose type does not depend on the context"""
+    return CoqRaw('(@nil Z)') if not l else CoqRaw(coq_lit(list(l)))
+
+
 def ev_coq_case(ops, res):
     cops, obs = [], []
     for op, o in zip(ops, res['out']):
@@ -122,24 +127,27 @@ def ev_coq_case(ops, res):
             x = 'OCopied'
         else:
             x = '(OConnected (-1))'     # an exception: can never match the model
-        obs.append((CoqRaw(x), st['ids'], st['prios']))
+        obs.append((CoqRaw(x), zlist(st['ids']), zlist(st['prios'])))
     return coq_lit((cops, obs))
 
 
-def stream_events(ctx, boost):
+def stream_events(ctx, boost, only=None):
     rng = ctx.rng
     cases = []
-    alpha = ev_alphabet()
+    alpha = ev_alphabet() if only is None else []
     for n in range(1, ctx.pick(4, 5) + 1):          # exhaustive up to length 4 (5) over 9 letters
         for seq in itertools.product(alpha, repeat=n):
             cases.append(list(seq))
     small = [['connect', 0, None, 'direct'], ['connect', 1, None, 'direct'], ['disconnect', 1], ['emit', 0]]
-    for n in range(5, 8):                            # all sequences of length 5..7 over 4 letters
+    for n in range(5, ctx.pick(7, 8) if only is None else 0):               # all sequences of length 5..6 (7) over 4 letters
         for seq in itertools.product(small, repeat=n):
             cases.append(list(seq))
-    for _ in range(ctx.pick(1500, 15000) * boost):
+    for _ in range(ctx.pick(1000, 15000) * boost if only is None else 0):
         cases.append(gen_events_random(rng, rng.randint(5, ctx.pick(14, 40))))
-    chunks = [cases[i::common.NPROC] for i in range(common.NPROC)]
+    if only is not None:
+        cases = list(only)
+    nproc = 4      # the work per case is tiny; importing tenpy dominates
+    chunks = [cases[i::nproc] for i in range(nproc)]
     res = common.run_impl_parallel('c20_impl.py', [{'kind': 'events', 'cases': [{'ops': c} for c in ch]} for ch in chunks])
     results = [None] * len(cases)
     for i, (r, err) in enumerate(res):
@@ -147,7 +155,7 @@ def stream_events(ctx, boost):
             ctx.fail('correspondence', 'events runner failed: ' + err[-500:], None)
             return
         for j, x in enumerate(r):
-            results[i + j * common.NPROC] = x
+            results[i + j * nproc] = x
     coq_cases, idx, keys = [], [], {}
     for i, (ops, r) in enumerate(zip(cases, results)):
         if 'runner_error' in r:
@@ -190,6 +198,12 @@ def gen_cache_ops(rng, n, threaded=False, subs=True, no_overwrite=False, close=T
     present = [set()]
     names = iter(['a', 'b', 'c', 'd'])
     val = [10]
+    NKEYS = rng.choice([1, 2, 2, 4])          # few keys: collisions between caches and with the short-term copy
+    if subs and rng.random() < 0.5:           # sub-caches (also nested) right from the start
+        for _ in range(rng.randint(1, 3)):
+            ops.append(['sub', rng.randrange(ncaches), next(names)])
+            ncaches += 1
+            present.append(set())
 
     def newval():
         val[0] += 1
@@ -405,10 +419,10 @@ def cache_oracle(case, res, death_ok=False):
         if (op[0] in ('getitem', 'pop', 'setdefault') and k not in d_before and o[0] == 'val'
                 and k in deleted and o[1] == deleted[k]):
             key = K_F9
-        elif hd5 and not was_closed and o[0] == 'exc' and orc.overwrites > 0 and (
-                (o[1] == 'OSError' and op[0] in ('set', 'setdefault', 'update')) or
-                (case.get('threading') and o[1] in DEATH)):
-            key = K_H5W
+        elif hd5 and not was_closed and orc.overwrites > 0 and (
+                (o[0] == 'exc' and o[1] == 'OSError' and op[0] in ('set', 'setdefault', 'update')) or
+                (case.get('threading') and ((o[0] == 'exc' and o[1] in DEATH) or o == ['bool', False]))):
+            key = K_H5W     # with the worker thread the OSError kills the worker; it surfaces at a later call
         elif hd5 and was_closed and op[1] > 0 and (op[0] == 'bool' or (op[0] == 'set' and o[0] == 'exc')):
             key = K_H5C
         what = 'step %d: %r returned %s, a dict gives %s (cache %d held %s)' % (t, op, o, want, op[1], d_before)
@@ -424,7 +438,7 @@ def cache_coq_case(coq_ops):
 
 def run_cache_cases(ctx, cases, threads, stream, deadline=None):
     """run the cases; returns list of results (None on runner failure)"""
-    nproc = min(common.NPROC, max(1, len(cases) // 8))
+    nproc = min(8, max(1, len(cases) // 8))
     chunks = [cases[i::nproc] for i in range(nproc)]
     payloads = [{'kind': 'sched' if stream.startswith('sched') else 'cache', 'cases': ch, 'threads': threads} for ch in chunks if ch]
     if deadline:
@@ -438,6 +452,17 @@ def run_cache_cases(ctx, cases, threads, stream, deadline=None):
             continue
         for j, x in enumerate(r):
             results[i + j * nproc] = x
+    # the deadline is a deadlock detector, not a speed test: a case that missed it is run again alone
+    # with a generous deadline (a real deadlock never finishes)
+    again = [i for i, x in enumerate(results) if x is not None and (x.get('hang') or not x.get('done')) and 'runner_error' not in x]
+    if again:
+        ctx.notes.append('%s: %d case(s) missed the deadline and were re-run alone' % (stream, len(again)))
+        pl = [{'kind': payloads[0]['kind'], 'cases': [dict(cases[i], settle_deadline=30)], 'threads': 1, 'deadline': 120} for i in again[:40]]
+        res2 = common.run_impl_parallel('c20_impl.py', pl, extra_env={'C20_TMP': common.scratch()}, timeout=400, maxpar=4)
+        for i, (r, err) in zip(again, res2):
+            if not err and r:
+                r[0]['rerun'] = True
+                results[i] = r[0]
     return results
 
 
@@ -454,8 +479,7 @@ def judge_cache_cases(ctx, cases, results, stream, coq_cases, coq_meta):
         ctx.count(stream, case, nontrivial=nontrivial, sample={'case': case, 'out': r.get('out')})
         replay = {'stream': stream, 'case': case, 'impl': r.get('out')}
         if r.get('hang') or not r.get('done'):
-            ctx.fail('oracle', '%s: deadlock detector: %s' % (stream, r.get('hang', 'case did not finish')), replay,
-                     match_key='C20:hang')
+            ctx.fail('oracle', '%s: deadlock detector: %s' % (stream, r.get('hang', 'case did not finish')), replay)
             continue
         death_ok = bool(case.get('fail'))
         what, key, coq_ops = cache_oracle(case, r, death_ok)
@@ -465,16 +489,26 @@ def judge_cache_cases(ctx, cases, results, stream, coq_cases, coq_meta):
         if len(r['out']) != len(ops):
             ctx.fail('oracle', '%s: %d outputs for %d operations' % (stream, len(r['out']), len(ops)), replay)
         if death_ok:
-            # after the first surfaced failure: only the dict's answer or another failure, never a wrong value
+            # up to the first surfaced failure: the dict's answers (checked above).  Afterwards an operation
+            # that raised may or may not have taken effect, so only: never a value that was never written
             seen = False
+            written = {}
             orc = CacheOracle(case)
             for t, (op, o) in enumerate(zip(ops, r['out'])):
-                want = orc.step(op, o)
+                if op[0] in ('set', 'setdefault'):
+                    written.setdefault((op[1], op[2]), set()).add(op[3])
+                if op[0] == 'update':
+                    for k, v in op[2]:
+                        written.setdefault((op[1], k), set()).add(v)
                 died = o[0] == 'exc' and o[1] in DEATH
+                if not seen and not died:
+                    want = orc.step(op, o)
+                    if want is not None and not same(o, want):
+                        break       # reported above
                 seen = seen or died
-                if not died and want is not None and not same(o, want):
-                    ctx.fail('oracle', '%s: after an injected disk failure step %d %r returned %s, a dict gives %s' % (
-                        stream, t, op, o, want), replay)
+                if seen and o[0] == 'val' and o[1] not in written.get((op[1], op[2]), set()):
+                    ctx.fail('oracle', '%s: after an injected disk failure step %d %r returned %s, which was never stored there' % (
+                        stream, t, op, o), replay)
                     break
         if r.get('final_close') not in (None, 'ok') and not (what and key):
             ctx.fail('oracle', '%s: close() raised %s' % (stream, r.get('final_close')), replay)
@@ -500,8 +534,8 @@ def stream_cache(ctx, boost):
     # ---- sequential, small-exhaustive over one key (+ a second one) on the in-memory Storage
     cases = []
     alpha = small_cache_alphabet()
-    for n in range(1, 5):
-        for seq in itertools.product(alpha[:8] if n == 4 else alpha, repeat=n):
+    for n in range(1, 6):
+        for seq in itertools.product(alpha if n < 4 else (alpha[:8] if n == 4 else alpha[:6]), repeat=n):
             cases.append({'storage': 'Storage', 'ops': [list(o) for o in seq]})
     # ---- sequential, random, every storage class, sub-caches, closing
     nrand = ctx.pick(500, 5000) * boost
@@ -525,8 +559,12 @@ def stream_cache(ctx, boost):
                       'ops': ops})
     results = run_cache_cases(ctx, cases, 24, 'cache-threaded')
     judge_cache_cases(ctx, cases, results, 'cache-threaded', coq_cases, coq_meta)
+    model_on_cache_cases(ctx, coq_cases, coq_meta)
+
+
+def model_on_cache_cases(ctx, coq_cases, coq_meta, name='cases_c20_cache'):
     # ---- the Coq model on everything
-    bad, err = common.coq_failing_indices('cases_c20_cache', ['Base.Prelude', 'Model.Cache'], 'check_cache', coq_cases, shard=1500)
+    bad, err = common.coq_failing_indices(name, ['Base.Prelude', 'Model.Cache'], 'check_cache', coq_cases, shard=1500)
     if err:
         ctx.fail('correspondence', 'Model/Cache.v evaluation failed: ' + err[-600:], None)
     shown = 0
@@ -538,16 +576,44 @@ def stream_cache(ctx, boost):
                 continue
         ctx.fail('correspondence', 'Model/Cache.v and tenpy.tools.cache.DictCache disagree (%s)' % stream,
                  {'stream': stream, 'case': case, 'impl': r.get('out')}, match_key=key)
-    ctx.cov['cache_traces_validated_against_model'] = len(coq_cases)
+    ctx.cov['cache_traces_validated_against_model'] = ctx.cov.get('cache_traces_validated_against_model', 0) + len(coq_cases)
 
 
 # ==========================================================================================
+
+def replay(ctx):
+    """./check C20 --replay file: run the recorded input again and judge it the same way"""
+    import json
+    doc = json.load(open(ctx.replay_in))
+    inp = doc.get('input') or {}
+    stream = inp.get('stream')
+    if stream == 'events':
+        stream_events(ctx, 1, only=[inp['ops']])
+    elif stream in ('cache', 'cache-threaded', 'sched-cache'):
+        case = inp['case']
+        results = run_cache_cases(ctx, [case], 1, stream)
+        coq_cases, coq_meta = [], []
+        judge_cache_cases(ctx, [case], results, stream, coq_cases, coq_meta)
+        if coq_cases:
+            model_on_cache_cases(ctx, coq_cases, coq_meta)
+    elif stream == 'sched-storage':
+        import c20_sched
+        c20_sched.check_storage_cases(ctx, [inp['case']])
+    else:
+        ctx.notes.append('replay file has no recorded input (proof obligation or runner failure): running the full check')
+        return None
+    return ctx.finish(RULE, 'replay of ' + ctx.replay_in)
+
 
 def main(ctx):
     import time
     t0 = time.time()
     ctx.proof = common.check_proofs('C20')
     boost = 1 if ctx.proof.ok else 3         # intensified search when an obligation is broken
+    if ctx.replay_in:
+        rc = replay(ctx)
+        if rc is not None:
+            return rc
     t1 = time.time()
     stream_events(ctx, boost)
     t2 = time.time()
@@ -569,7 +635,7 @@ def main(ctx):
 
 
 RULE = ('events: every connect/disconnect/emit/emit_until sequence up to length 4 over 9 letters and up to length 7 over 4 letters, '
-        'plus random sequences; non-trivial = at least 2 connects and an emit.  cache: every sequence up to length 4 over a 10-letter '
+        '(quick: 6), plus random sequences; non-trivial = at least 2 connects and an emit.  cache: every sequence up to length 4 over a 10-letter '
         'alphabet on one key, plus random sequences (length <= 12 quick / 40 thorough) over 4 keys and up to 4 nested (sub-)caches for '
         'Storage / PickleStorage / Hdf5Storage, with and without the worker thread; non-trivial = at least one write and one read.  '
         'sched: worker schedules enforced by gates at the synchronisation points (see harness/c20_sched.py); distinct = distinct '
